@@ -390,7 +390,7 @@ def storage_cases(r: random.Random, n: int) -> Cases:
 
 from fmtutil import dict2const, make_const, make_group  # noqa: E402
 
-CONST_TEXTS = ["dev", "development", "sit", "prod", "data engineer", "DE", "v1", "2023", "a-b", "x_y", "normal", "special", "7"]
+CONST_TEXTS = ["dev", "development", "sit", "prod", "data engineer", "DE", "v1", "2023", "a-b", "x_y", "normal", "special", "7", "a.b", "+abc.1", "x|y", "(q)", "1.0*", "a\\b", "[z]", "100%", "$x^"]
 ALL_DIRECTIVE_SPELLINGS = [f"%{p}{c}" for p in ("", "-", "+", "!", "*") for c in "abcdefghijklmnopqrstuvwxyzABCDEFGHIJKLMNOPQRSTUVWXYZ"]
 
 
